@@ -25,7 +25,18 @@ from ._fchk import enc_sci, rand_sci, sci_float
 from ._wfnw import free_build, sci_txt
 
 MO = "<Molecular Orbital Primitive Coefficients>"
-PER = {"<Nuclear Cartesian Coordinates>": 3, "<Primitive Centers>": 10, "<Primitive Types>": 10, "<Primitive Exponents>": 4, MO: 4}
+_PER = None
+
+
+def per_table():
+    """items per line of the sections the writer breaks into lines, read from the source like Gen.LayoutsW.wfxL"""
+    global _PER
+    if _PER is None:
+        from ._layoutsw import wfx_layout
+
+        _, pi, pr, pc = wfx_layout()
+        _PER = {"<Nuclear Cartesian Coordinates>": pc, "<Primitive Centers>": pi, "<Primitive Types>": pi, "<Primitive Exponents>": pr, MO: pr}
+    return _PER
 
 
 def enc_real(v):
@@ -170,7 +181,7 @@ def sections_of(raw: bytes):
             body.append(lines[k])
             k += 1
         k += 1
-        per = PER.get(tag, 1)
+        per = per_table().get(tag, 1)
         if tag == MO:
             orbs, j = [], 0
             while j < len(body):
